@@ -467,4 +467,92 @@ theorem run_tickMoves' (w : World P) (T1 T2 : Nat) (h1 : T1 = w.now + resendUs) 
   subst h1; subst h2
   exact run_tickMoves w ca1 cb1 ca2 cb2 pa1 pb1 pa2 pb2 ha1 hb1 ha2 hb2
 
+/-! ## events only grow -/
+
+theorem step_events {w w' : World P} (m : Move P) (h : step w m = some w') (s : Side) :
+    ∃ ev, (w'.get s).events = (w.get s).events ++ ev := by
+  cases m with
+  | advance dt =>
+    simp only [step] at h; injection h with h; subst h; exact ⟨[], by cases s <;> simp [World.get]⟩
+  | call x draws c =>
+    simp only [step] at h
+    cases hr : P.call w.now draws (w.get x).conn c with
+    | error e => rw [hr] at h; cases h
+    | ok r =>
+      rw [hr] at h; injection h with h; subst h
+      cases x <;> cases s <;> simp [World.get, World.set, End.book]
+  | deliver to i draws alt =>
+    simp only [step] at h
+    cases hdg : (w.get to.other).out[i]? with
+    | none => rw [hdg] at h; cases h
+    | some dg =>
+      rw [hdg] at h; simp only at h
+      cases hr : P.recv w.now draws (w.get to).conn dg.pkt alt with
+      | error e => rw [hr] at h; cases h
+      | ok r =>
+        rw [hr] at h; injection h with h; subst h
+        cases to <;> cases s <;> simp [World.get, World.set, End.book]
+
+theorem run_events : ∀ (ms : List (Move P)) (w w' : World P), NetSim.run w ms = some w' → ∀ s : Side,
+    ∃ ev, (w'.get s).events = (w.get s).events ++ ev := by
+  intro ms
+  induction ms with
+  | nil => intro w w' h s; simp [NetSim.run] at h; subst h; exact ⟨[], by simp⟩
+  | cons m ms ih =>
+    intro w w' h s
+    simp only [NetSim.run] at h
+    cases hst : step w m with
+    | none => rw [hst] at h; cases h
+    | some w1 =>
+      rw [hst] at h
+      obtain ⟨e1, h1⟩ := step_events m hst s
+      obtain ⟨e2, h2⟩ := ih w1 w' h s
+      exact ⟨e1 ++ e2, by rw [h2, h1, List.append_assoc]⟩
+
+theorem fairRoundT_events {draws : List Nat} {alt : P.Alt} {s s' : FairState P}
+    (h : fairRoundT draws alt s = some s') (x : Side) : ∃ ev, (s'.w.get x).events = (s.w.get x).events ++ ev := by
+  simp only [fairRoundT] at h
+  cases h1 : NetSim.run s.w tickMoves with
+  | none => rw [h1] at h; cases h
+  | some w1 =>
+    rw [h1] at h; simp only at h
+    cases h2 : NetSim.run w1 (deliverRangeD .b s.ca w1.a.out.length draws alt) with
+    | none => rw [h2] at h; cases h
+    | some w2 =>
+      rw [h2] at h; simp only at h
+      cases h3 : NetSim.run w2 (deliverRangeD .a s.cb w2.b.out.length draws alt) with
+      | none => rw [h3] at h; cases h
+      | some w3 =>
+        rw [h3] at h; injection h with h; subst h
+        obtain ⟨e1, g1⟩ := run_events _ _ _ h1 x
+        obtain ⟨e2, g2⟩ := run_events _ _ _ h2 x
+        obtain ⟨e3, g3⟩ := run_events _ _ _ h3 x
+        exact ⟨e1 ++ e2 ++ e3, by rw [g3, g2, g1]; simp⟩
+
+theorem fairRoundsT_events {draws : List Nat} {alt : P.Alt} : ∀ (k : Nat) {s s' : FairState P},
+    fairRoundsT draws alt k s = some s' → ∀ x : Side, ∃ ev, (s'.w.get x).events = (s.w.get x).events ++ ev := by
+  intro k
+  induction k with
+  | zero => intro s s' h x; simp [fairRoundsT] at h; subst h; exact ⟨[], by simp⟩
+  | succ k ih =>
+    intro s s' h x
+    rw [fairRoundsT_succ] at h
+    cases h1 : fairRoundT draws alt s with
+    | none => rw [h1] at h; cases h
+    | some s1 =>
+      rw [h1] at h
+      obtain ⟨e1, g1⟩ := fairRoundT_events h1 x
+      obtain ⟨e2, g2⟩ := ih h x
+      exact ⟨e1 ++ e2, by rw [g2, g1, List.append_assoc]⟩
+
+theorem fairRoundsT_add {draws : List Nat} {alt : P.Alt} (j k : Nat) (s : FairState P) :
+    fairRoundsT draws alt (j + k) s = (fairRoundsT draws alt j s).bind (fairRoundsT draws alt k) := by
+  induction j generalizing s with
+  | zero => simp [fairRoundsT]
+  | succ j ih =>
+    rw [Nat.succ_add, fairRoundsT_succ, fairRoundsT_succ]
+    cases fairRoundT draws alt s with
+    | none => rfl
+    | some s1 => exact ih s1
+
 end Tw.NetSim
